@@ -241,6 +241,15 @@ def step (d : Drv) (line : String) : Drv × String :=
       | .error e => (d, s!"exc {e.name}")
       | .ok a =>
         ({ d with toNet := d.toNet.setLayer i (State.init (parseCfg kv) a) }, "ok")
+  | "setaddr" :: i :: rest =>
+    -- `set_address(address)`: the layer keeps all its state and uses the new address from now on
+    let kv := parseKV rest
+    (match i.toNat? with
+    | none => (d, "bad-op")
+    | some i =>
+      match mkAddr kv with
+      | .error e => (d, s!"exc {e.name}")
+      | .ok a => onLayer d i fun s => ({ s with addr := a }, "ok"))
   | ["send", i, id, size, hex, tat, instr] =>
     match i.toNat?, id.toNat?, size.toInt?, parseHex hex with
     | some i, some id, some size, some src =>
